@@ -97,6 +97,12 @@ def generated_code_verbatim(d, o, out):
         k = len(want)
         if k and not any(lines[i:i + k] == want for i in range(len(lines) - k + 1)):
             return [{"clause": "generated_code_verbatim", "got": out[:600], "want": want[:6]}]
+    if meta.get("no_code"):
+        # the generator wrote no code block: no output line is a fence (a run of >= 3 backticks followed by no further backtick,
+        # or of >= 3 tildes, behind at most container markers)
+        for l in lines:
+            if re.match(r"^[ >*+-]*(`{3,}[^`]*|~{3,}.*)$", l) and not re.match(r"^[ >*+-]*`{3,}[^`]*`", l):
+                return [{"clause": "generated_code_verbatim", "got": out[:600], "want": "no code block (found fence line %r)" % l}]
     for info in meta.get("top_info", []):
         if info and not any(re.match(r"^(`{3,}|~{3,})" + re.escape(info) + r"$", l) for l in lines):
             return [{"clause": "generated_code_verbatim", "got": out[:600], "want": "info string " + info}]
